@@ -328,6 +328,7 @@ func runWs(c WsCase) *pbt.Violation {
 	}
 	conn, wait := wsConn(s, c.Upgrade)
 	defer conn.Close()
+	fd.key = len(c.wire())
 	if v := deliverRtsp(s, conn, c.wire(), c.Slices, fd, c.FeedAfter, nil, wait, "rtsp.(*WebsocketServer).HandleWebsocket", "ws-rtsp"); v != nil {
 		return v
 	}
